@@ -28,6 +28,16 @@ Theorem C03_registry_bijective :
 Proof. exact registry_bijective_tables. Qed.
 Print Assumptions C03_registry_bijective.
 
+(* The three statements still hold of the tables read again after the library has been used in the same interpreter
+   (every payload class constructed/printed/encoded/decoded, name and value lookups, MixedLogReader, DataLoader, every
+   Analyzer plot_* / generate_* method, message printing): library code does not change the registries while it runs. *)
+Theorem C03_agree_after_use :
+  enums_agree_spec enum_pairing exc_cpp_only exc_py_only exc_renamed cpp_enums py_enums_after /\
+  classification_agrees_spec cpp_classification py_classification_after py_command_messages_after py_response_messages_after /\
+  registry_bijective_spec cpp_messages py_classes_after py_registry_after.
+Proof. exact tables_agree_after_use. Qed.
+Print Assumptions C03_agree_after_use.
+
 (* The comparison is not vacuous: the tables are non-empty and the comparison functions flag synthetic errors. *)
 Example C03_nonvacuous :
   cpp_enums <> [] /\ cpp_classification <> [] /\ cpp_messages <> [] /\ py_enums <> [] /\ py_classes <> [] /\
